@@ -135,7 +135,10 @@ async fn drain() {
 
 fn observe(w: &World, from: usize) -> String {
     let ls: String = w.loading.iter().map(|(sel, _, _)| if sel.is_alive() { match catch(|| sel.get_untracked()) { Ok(true) => '1', Ok(false) => '0', Err(_) => '!' } } else { 'x' }).collect();
-    let ps = w.polls[from..].iter().map(|(t, l)| format!("{t}.{l}")).collect::<Vec<_>>().join(",");
+    // which task is polled first within one executor turn is a scheduling detail: listed by task
+    let mut polled: Vec<(usize, usize)> = w.polls[from..].to_vec();
+    polled.sort_by(|a, b| a.0.cmp(&b.0).then(b.1.cmp(&a.1)));
+    let ps = polled.iter().map(|(t, l)| format!("{t}.{l}")).collect::<Vec<_>>().join(",");
     let g = match catch(sycamore::rt::use_is_loading_global) { Ok(true) => "1", Ok(false) => "0", Err(_) => "!" };
     format!("L={ls} G={g} P=[{ps}]")
 }
@@ -166,12 +169,17 @@ fn run_suspense(items: &[Item], events: &[String]) -> (String, Option<String>) {
             }
             build(&w, items, 0, None);
         });
-        drain().await;
+        // `n` as first event: no executor turn between the creation and the first group of events (tasks
+        // have not been polled yet); `a+b`: the events of a group happen back to back, one executor turn after
+        let (no_initial_drain, events): (bool, &[String]) = if events.first().map(|e| e == "n").unwrap_or(false) { (true, &events[1..]) } else { (false, events) };
+        if !no_initial_drain { drain().await; }
         out.push(root.run_in(|| observe(&w.borrow(), 0)));
-        for e in events {
+        'groups: for e in events {
             let from = w.borrow().polls.len();
-            let (kind, n): (char, usize) = (e.chars().next().unwrap(), e[1..].parse().unwrap());
-            let r = catch(|| root.run_in(|| match kind {
+            let mut r: Result<(), String> = Ok(());
+            for e1 in e.split('+') {
+            let (kind, n): (char, usize) = (e1.chars().next().unwrap(), e1[1..].parse().unwrap());
+            r = catch(|| root.run_in(|| match kind {
                 'r' => {
                     let tx = { let mut ww = w.borrow_mut(); ww.res.get_mut(n).and_then(|r| r.1.take()) };
                     if let Some(tx) = tx {
@@ -196,10 +204,12 @@ fn run_suspense(items: &[Item], events: &[String]) -> (String, Option<String>) {
                     }
                 }
             }));
+            if r.is_err() { break; }
+            }
             if let Err(m) = r {
                 out.push("panic".into());
                 verdict.get_or_insert(format!("[async-panic] event {e} panicked: {m}"));
-                break;
+                break 'groups;
             }
             drain().await;
             let panics: Vec<String> = PANIC_LOG.with(|p| p.borrow_mut().drain(..).collect());
@@ -296,8 +306,12 @@ fn run_resource(dep0: u32, fb: Option<u32>, events: &[String]) -> (String, Optio
         };
         drain().await;
         out.push(show(alive));
-        for e in events {
-            let r = catch(|| root.run_in(|| {
+        for g in events {
+            let mut r: Result<(), String> = Ok(());
+            let e = g;
+            for e in g.split('+') {
+            let e = &e.to_string();
+            r = catch(|| root.run_in(|| {
                 if e == "x" { scope.dispose(); }
                 else if let Some(v) = e.strip_prefix('w') { if alive { dep.set(v.parse().unwrap()); } }
                 else if let Some(k) = e.strip_prefix('f') { let k: usize = k.parse().unwrap(); if k >= 1 { if let Some(tx) = txs.borrow_mut().get_mut(k - 1).and_then(|t| t.take()) { let _ = tx.send(()); } } }
@@ -314,6 +328,8 @@ fn run_resource(dep0: u32, fb: Option<u32>, events: &[String]) -> (String, Optio
                         if let Some(c) = fb { if cur_dep != c { cur_dep = c; started += 1; latest_dep = c; completed = false; } }
                     }
                 }
+            }
+            if r.is_err() { break; }
             }
             if let Err(m) = r {
                 out.push("panic".into());
@@ -502,6 +518,26 @@ pub fn generate(args: &Args) -> Vec<String> {
             }
         }
     }
+    // C14: disposals BEFORE the first poll of the tasks (`n`: no executor turn after creation) and events
+    // that happen back to back (`a+b`: one executor turn after the group)
+    for sh in ["(L (b (t 2) (s (t 1)) (b (t 1))))", "(L (s (b (t 1) (s (t 2)))) (b (t 1)))", "(L (s (t 1)) (b (s (t 1)) (t 1)))"] {
+        let items = parse_items(sh).unwrap();
+        let (scopes, _, tasks) = count(&items);
+        let mut evs: Vec<String> = vec![];
+        for (t, n) in tasks.iter().enumerate() { for _ in 0..*n { evs.push(format!("c{t}")); } }
+        for s in 1..=scopes {
+            l.push(format!("async suspense {sh} n,d{s},{}", evs.join(",")));
+            l.push(format!("async suspense {sh} n,{}+d{s},{}", evs[0], evs[1..].join(",")));
+            for pos in 0..evs.len() {
+                let mut e = evs.clone();
+                e[pos] = format!("{}+d{s}", e[pos]);
+                l.push(format!("async suspense {sh} {}", e.join(",")));
+                let mut e = evs.clone();
+                e[pos] = format!("d{s}+{}", e[pos]);
+                l.push(format!("async suspense {sh} {}", e.join(",")));
+            }
+        }
+    }
     // random trees with random schedules of completions and disposals
     let n = if thorough { 60_000 } else { 2_500 };
     for _ in 0..n {
@@ -513,7 +549,14 @@ pub fn generate(args: &Args) -> Vec<String> {
         // shuffle
         for i in (1..evs.len()).rev() { let j = rng.below(i + 1); evs.swap(i, j); }
         if scopes > 0 { for _ in 0..rng.below(3) { let pos = rng.below(evs.len() + 1); evs.insert(pos, format!("d{}", 1 + rng.below(scopes))); } }
-        l.push(format!("async suspense (L {}) {}", show_items(&items), if evs.is_empty() { "-".into() } else { evs.join(",") }));
+        // every third schedule: some neighbours happen back to back, possibly before the first poll
+        let mut line = if evs.is_empty() { "-".to_string() } else { evs.join(",") };
+        if !evs.is_empty() && rng.chance(1, 3) {
+            let mut g = String::new();
+            for (i, e) in evs.iter().enumerate() { if i > 0 { g.push(if rng.chance(1, 2) { '+' } else { ',' }); } g += e; }
+            line = if rng.chance(1, 3) { format!("n,{g}") } else { g };
+        }
+        l.push(format!("async suspense (L {}) {}", show_items(&items), line));
     }
     // C13: ONE loading resource read under several boundaries (each read holds its own guard) x every order
     // of the resource's delivery and the tasks' completions; no disposals (the guards live in the resource)
@@ -561,6 +604,14 @@ pub fn generate(args: &Args) -> Vec<String> {
             l.push(format!("async resourcefb 7 1 {}", evs.join(",")));
         }
         l.push("async resourcefb 1 1 f1,w11,f2,f3".into());
+    }
+    // C15: dependency writes back to back (no executor turn in between: the superseded fetch has not been polled)
+    for tail in ["f1", "f2", "f3", "f1,f2,f3", "f3,f2,f1", "f2,f3", "f3,f1", "f2,f1,f3"] {
+        l.push(format!("async resource 7 w11+w12,{tail}"));
+        l.push(format!("async resource 7 w11+w12+w13,{tail},f4"));
+        l.push(format!("async resource 7 w11,f2,w12+w13,{tail},f4"));
+        l.push(format!("async resource 7 w11+f1,{tail}"));
+        l.push(format!("async resource 7 w11+x,{tail}"));
     }
     // C15: every event sequence over {w, f1..f4} up to length 5 (quick) / 6 (thorough), plus disposal variants
     let alpha = ["w", "f1", "f2", "f3", "f4"];
